@@ -6,7 +6,7 @@ import setcheck, phasecheck as pc, phaselib as pl, vlib
 def violation_table(tier):
     """Each violating kind at every position of a 3-object phase, all flavours, namespaced and cluster owners, rollout and teardown."""
     out = []
-    kinds = ["apimissing", "ownerrefs", "foreignns", "clusterkind", "clusterkind-ns", "dryreject", "none"]
+    kinds = ["apimissing", "ownerrefs", "foreignns", "clusterkind", "clusterkind-ns", "dryreject", "none", "none-applydry404"]
     for flavor in ("objectset", "samephase", "sameclusterphase", "multiphase", "multiclusterphase"):
         for okind in pl.flavor_owner_kind(flavor):
             ons = 0 if okind in (2, 4) else 1
@@ -25,6 +25,10 @@ def violation_table(tier):
                     o["gk"], o["ns"] = 3, 1
                 elif bad == "dryreject":
                     o["dryreject"] = True
+                if bad.endswith("applydry404"):
+                    # valid objects whose dry-run apply answers NotFound: preflight must fall back to a DRY-RUN create
+                    for x in objs:
+                        x["applydry404"] = True
                 annot = pl.is_annot(flavor)
                 store = []
                 for i, p in enumerate(objs):
